@@ -5,6 +5,8 @@ import (
 	"go/types"
 	"strings"
 
+	"golang.org/x/tools/go/ssa"
+
 	"verif/checker/effects"
 	"verif/checker/load"
 	"verif/checker/report"
@@ -55,6 +57,61 @@ var acceptSpec = map[string][]string{
 	"(*Scalar).SetBytesWithClamping":  {"LEN[len(x) != 32]", "?via (*Scalar).SetUniformBytes: LEN[len(x) != 64]"},
 	"field.(*Element).SetBytes":       {"LEN[len(x) != 32]"},
 	"field.(*Element).SetWideBytes":   {"LEN[len(x) != 64]"},
+}
+
+// ruleShape: the value types consist of exactly the fields the algebraic checks model. An extra field is state
+// whose consistency with the coordinates (across every writer) none of the value-level checks decides.
+func (c *Ctx) ruleShape(cfg string) {
+	p := c.Prog(cfg)
+	if p == nil {
+		return
+	}
+	for _, t := range []struct {
+		pkg    *ssa.Package
+		name   string
+		fields []string
+	}{
+		{p.Root, "Point", []string{"x", "y", "z", "t"}},
+		{p.Root, "Scalar", []string{"s"}},
+		{p.Field, "Element", []string{"l0", "l1", "l2", "l3", "l4"}},
+	} {
+		o := report.Obligation{Rule: "SHAPE", Key: "SHAPE/" + load.ShortName0(t.pkg) + t.name, Config: cfg}
+		m := t.pkg.Members[t.name]
+		if m == nil {
+			o.Detail = "ANCHOR type " + t.name + " not found"
+			c.Set.Add(o)
+			continue
+		}
+		st, ok := m.Type().Underlying().(*types.Struct)
+		if !ok {
+			o.Detail = t.name + " is not a struct"
+			c.Set.Add(o)
+			continue
+		}
+		var extra, got []string
+		for i := 0; i < st.NumFields(); i++ {
+			f := st.Field(i)
+			if a, isArr := f.Type().Underlying().(*types.Array); isArr && a.Len() == 0 {
+				continue // zero-size marker (incomparable)
+			}
+			got = append(got, f.Name())
+			known := false
+			for _, k := range t.fields {
+				if k == f.Name() {
+					known = true
+				}
+			}
+			if !known {
+				extra = append(extra, f.Name()+" "+f.Type().String())
+			}
+		}
+		o.OK = len(extra) == 0 && len(got) == len(t.fields)
+		o.Detail = t.name + " consists of exactly {" + strings.Join(t.fields, ", ") + "}: a value is determined by the fields the checks model"
+		if !o.OK {
+			o.Detail = fmt.Sprintf("%s has fields {%s}; the unmodelled field(s) {%s} are hidden state: whether every writer keeps them consistent with the coordinates (for every operation history) is not decided by the value-level checks", t.name, strings.Join(got, ", "), strings.Join(extra, ", "))
+		}
+		c.Set.Add(o)
+	}
 }
 
 func (c *Ctx) addAll(obls []report.Obligation) {
@@ -275,6 +332,7 @@ func init() {
 				c.addAll(a.RGlobal())
 				c.addAll(a.RInitReceivers(nil))
 				c.addAll(a.RDefined())
+				c.ruleShape(cfg)
 			}
 		},
 	})
